@@ -239,6 +239,7 @@ class ConditionalEffectsRemover(engines.engine.Engine, CompilerMixin):
                 new_action.clear_effects()
                 for e in action.unconditional_effects:
                     new_action._add_effect_instance(e.clone())
+                conflicting_effects = False
                 for i, e in enumerate(cond_effects):
                     if i in p:
                         # positive precondition
@@ -250,17 +251,21 @@ class ConditionalEffectsRemover(engines.engine.Engine, CompilerMixin):
                             e.kind,
                             e.forall,
                         )
-                        # We try to add the new effect, but it might be in conflict with exising effects,
-                        # so the action is not added to the problem
+                        # We try to add the new effect, but it might be in conflict with exising effects:
+                        # whenever the conditions of this combination hold the original action is not
+                        # applicable, so the whole action is not added to the problem
                         try:
                             new_action._add_effect_instance(ne)
                         except UPConflictingEffectsException:
-                            continue
+                            conflicting_effects = True
+                            break
                     else:
                         # negative precondition
                         new_action.add_precondition(
                             env.expression_manager.Not(e.condition)
                         )
+                if conflicting_effects:
+                    continue
                 # new action is created, then is checked if it has any impact and if it can be simplified
                 if len(new_action.effects) > 0:
                     (
@@ -286,6 +291,7 @@ class ConditionalEffectsRemover(engines.engine.Engine, CompilerMixin):
                 for t, el in action.unconditional_effects.items():
                     for e in el:
                         new_action._add_effect_instance(t, e.clone())
+                conflicting_effects = False
                 for i, (e, t) in enumerate(cond_effects_timing):
                     if i in p:
                         # positive precondition
@@ -297,17 +303,21 @@ class ConditionalEffectsRemover(engines.engine.Engine, CompilerMixin):
                             e.kind,
                             e.forall,
                         )
-                        # We try to add the new effect, but it might be in conflict with exising effects,
-                        # so the action is not added to the problem
+                        # We try to add the new effect, but it might be in conflict with exising effects:
+                        # whenever the conditions of this combination hold the original action is not
+                        # applicable, so the whole action is not added to the problem
                         try:
                             new_action._add_effect_instance(t, ne)
                         except UPConflictingEffectsException:
-                            continue
+                            conflicting_effects = True
+                            break
                     else:
                         # negative precondition
                         new_action.add_condition(
                             t, env.expression_manager.Not(e.condition)
                         )
+                if conflicting_effects:
+                    continue
                 # new action is created, then is checked if it has any impact and if it can be simplified
                 if len(new_action.effects) > 0:
                     (
